@@ -5,8 +5,10 @@ package app
 // Exported wrappers used only by the verification harness (/verif). Add-only, compiled with -tags verif.
 
 import (
+	"context"
 	"fmt"
 	"log/slog"
+	"net/http"
 	"os"
 	"path/filepath"
 	"sort"
@@ -172,4 +174,32 @@ func (v *VerifGen) Dump() string {
 		fmt.Fprintf(&sb, " %s{%s}", n, dumpBuf(v.g.segDataBuffers[n]))
 	}
 	return sb.String()
+}
+
+// VerifNewRouter builds a receiver and its HTTP router (as Run does) on the given storage directory.
+// With recoverer=false the handler is returned without chi's Recoverer so that a panic reaches the caller.
+func VerifNewRouter(ctx context.Context, storage string, tsbdS, nrRaw uint64, cfg *Config, recoverer bool) (http.Handler, error) {
+	opts := &Options{prefix: defaultPrefix, storage: storage, timeShiftBufferDepthS: tsbdS, receiveNrRawSegments: nrRaw, fileServerPath: "dash"}
+	if cfg == nil {
+		cfg = GetEmptyConfig()
+	}
+	r, err := NewReceiver(ctx, opts, cfg)
+	if err != nil {
+		return nil, err
+	}
+	if recoverer {
+		return setupRouter(r, storage, opts.fileServerPath), nil
+	}
+	mux := http.NewServeMux()
+	mux.HandleFunc(r.prefix+"/", func(w http.ResponseWriter, req *http.Request) {
+		switch req.Method {
+		case http.MethodPut, http.MethodPost:
+			r.SegmentHandlerFunc(w, req)
+		case http.MethodDelete:
+			r.DeleteHandlerFunc(w, req)
+		default:
+			http.Error(w, "method not allowed", http.StatusMethodNotAllowed)
+		}
+	})
+	return mux, nil
 }
